@@ -4,7 +4,7 @@
 cd /verif
 mkdir -p /tmp/refout
 names="$@"; [ -z "$names" ] && names=$(ls refactors | grep -v PROMPT)
-echo $names | tr ' ' '\n' | xargs -P 6 -I{} tools/runpatch.sh {} refactors/{}/patch.diff /tmp/refout
+echo $names | tr ' ' '\n' | xargs -P 8 -I{} tools/runpatch.sh {} refactors/{}/patch.diff /tmp/refout
 for name in $names; do
   props=$(grep "^VIOLATION" /tmp/refout/$name.txt | sed 's/.*property=\(C[0-9]*\).*/\1/' | sort -u | tr '\n' ' ')
   grep -q "DOES NOT APPLY" /tmp/refout/$name.txt && props="PATCH DOES NOT APPLY"
